@@ -174,6 +174,10 @@ def r2_scaling(idx, r):
     st = fl.state_before(gen) if gen is not None else None
     r.require(gen is not None and st is not None and st.get("edges-removed", (0, 0))[0] >= 1 and st.get("declared-full", (0, 0))[0] >= 1, "scale:list-computed-after-geometry-changes", cv, node=gen,
               msg="the list of parameters to scale is filtered on assignment flags that removeEdgeAssemblies/core.add refresh: it must be computed after them, or it can be empty and the centre assembly is not scaled")
+    memo = [norm(t) for t, p in path_conditions(cv.node, gen) if "listOfVolIntegratedParamsToScale" in norm(t)] if gen is not None else []
+    r.require(gen is not None and not memo, "scale:list-recomputed-at-every-conversion", cv, node=gen,
+              msg=f"the list is only computed when {memo}: a changer that converts a second time keeps the list of its first conversion, and a volume-integrated parameter first assigned "
+                  "in between is not tripled on the centre assembly")
     gl = idx.func(GC + "._generateListOfParamsToScale")
     r.require("ParamLocation.VOLUME_INTEGRATED" in norm(gl.node), "scale:list-from-definitions", gl, msg="the parameters to scale are the VOLUME_INTEGRATED ones, from their definitions")
     sp = idx.method("armi.reactor.assemblies.Assembly", "scaleParamsToNewSymmetryFactor")
